@@ -1,5 +1,5 @@
 (* C07/Properties.v — property theorems only. Each is closed by a lemma of C07/Proofs.v. *)
-From Relic Require Import Base.Prelude Generated.C07_gen C07.Model C07.Proofs C07.History C07.HistoryProofs.
+From Relic Require Import Base.Prelude Generated.C07_gen C07.Model C07.Proofs C07.History C07.HistoryProofs C07.Pgp C07.PgpProofs.
 
 (* 1. SameKey answers "same public key": sound up to the curve identifier, complete on RSA/ECDSA keys *)
 Theorem same_key_sound : forall a b, same_key a b = true ->
@@ -106,6 +106,11 @@ Proof. exact C07.Proofs.sign_flow_mismatch. Qed.
       InitKey use the key and the certificate files of the section the name resolves to *)
 Theorem config_resolves : forall c n kc, cfg_get_key c n = Ok kc -> spec_resolve c n = Some kc /\ kc_token kc <> 0.
 Proof. exact C07.Proofs.cfg_get_key_resolves. Qed.
+Theorem alias_of_alias_refused : forall c n k t,
+  cfg_find c n = Some k -> kc_alias k <> 0 -> cfg_find c (kc_alias k) = Some t -> kc_alias t <> 0 -> cfg_get_key c n = Err E_ALIAS.
+Proof. exact C07.Proofs.cfg_alias_chain_is_error. Qed.
+Theorem lookup_idempotent : forall c n kc, cfg_get_key c n = Ok kc -> cfg_get_key c (kc_name kc) = Ok kc.
+Proof. exact C07.Proofs.cfg_get_key_idempotent. Qed.
 Theorem token_key_right : forall c kf n k, token_get_key c kf n = Ok k ->
   spec_resolve c n = Some (fk_conf k) /\ kf (kc_keyfile (fk_conf k)) = Ok (fk_priv k).
 Proof. exact C07.Proofs.token_get_key_right. Qed.
@@ -214,6 +219,89 @@ Theorem init_requires_certificate : forall ct b b', init_h ct b = Ok b' ->
   b' = b /\ (init_needs_x509 ct = true -> b_leaf b <> None) /\ (init_needs_pgp ct = true -> b_pgp b <> None).
 Proof. exact C07.HistoryProofs.init_h_ok. Qed.
 
+
+(* 10. OpenPGP: WHICH key packet a signature names and WHICH private key computes its value (C07/Pgp.v), for every
+       certificate structure (primary key, any number of subkeys with any binding flags / times / expiry / revocation, any
+       number of user ids, secret material already present in the configured file), every token key and every PGP-family
+       signer (signers/pgp detached / armored / text mode / inline / clearsign / 2.0 mini-clear, rpm, deb).
+   10a. the generated shape of the mechanism is the reviewed one: statement list of the loader's PGP block with the guard before
+        the assignment, the only places of lib/certloader that build or store a private-key packet, how each signing site
+        uses the entity / the bundle, the pinned go-crypto / go-rpmutils versions and the issuer fields they fill in *)
+Theorem pgp_loader_block_reviewed : pgp_loader_shape_ok = true.
+Proof. exact C07.PgpProofs.loader_shape. Qed.
+Theorem pgp_private_key_pairings_reviewed : certloader_privkey_reviewed = true.
+Proof. exact C07.PgpProofs.privkey_inventory. Qed.
+Theorem pgp_signing_sites_reviewed : pgp_site_uses_reviewed = true.
+Proof. exact C07.PgpProofs.site_uses. Qed.
+Theorem pgp_libraries_reviewed : pgp_libs_reviewed = true.
+Proof. exact C07.PgpProofs.libs_reviewed. Qed.
+(* 10b. the loader: the only private-key packet it creates pairs the PRIMARY key packet with the token key, after SameKey
+        accepted exactly that pair; nothing else of the entity changes; it agrees with the coarser model of section 2 *)
+Theorem pgp_loader_pairs_primary_with_token_key : forall key e e',
+  load_pgp key e = Ok e' -> e' = loaded key e /\ same_key (KPriv key) (KPub (kp_pub (pe_primary e))) = true.
+Proof. exact C07.PgpProofs.load_pgp_ok. Qed.
+Theorem pgp_loader_refines_model : forall key e,
+  match load_pgp_ring key (Ok [e]), load_token_certs key [] (Err E_READ) [] (mkSrc true false []) [1] (Ok [to_entity e]) with
+  | Ok e', Ok b => b_pgp b = Some (to_entity e') /\ b_priv b = Some key /\ b_leaf b = None
+  | Err a, Err b => a = b
+  | _, _ => False
+  end.
+Proof. exact C07.PgpProofs.load_pgp_refines. Qed.
+(* 10c. go-crypto's selection returns the (public packet, private packet) pair of the primary key or of one subkey of the
+        certificate - never a mixture *)
+Theorem pgp_selection_is_a_certificate_key : forall e id pk op,
+  signing_key e id = Ok (pk, op) ->
+  (pk = pe_primary e /\ op = pe_priv e /\ pick_sub key_flag_sign id 0 None (pe_subs e) = None)
+  \/ (exists s, In s (pe_subs e) /\ pk = sb_pkt s /\ op = sb_priv s /\ pick_sub key_flag_sign id 0 None (pe_subs e) = Some s).
+Proof. exact C07.PgpProofs.signing_key_cases. Qed.
+(* 10d. THE PROPERTY: either the request is refused, or every emitted signature names - with its issuer key id AND its issuer
+        fingerprint - one key packet of the configured certificate, and the value verifies under that packet's key *)
+Theorem pgp_signature_names_signing_key : forall key e md m l,
+  ent_file_wf e = true -> curve_hyp_pgp key e ->
+  pgp_request key e md m = Ok l ->
+  l <> [] /\ forallb (spec_pgp_sig_ok (cert_packets e) m) l = true.
+Proof. exact C07.PgpProofs.pgp_request_sound. Qed.
+Theorem pgp_request_meets_spec : forall key e md m,
+  ent_file_wf e = true -> curve_hyp_pgp key e -> pe_idents e <> [] -> (0 <= md_kind md <= 2) ->
+  spec_pgp_out_ok (cert_packets e) m (pgp_request key e md m) = true.
+Proof. exact C07.PgpProofs.pgp_request_meets_spec. Qed.
+(* 10e. for a certificate file with public parts only (the ordinary configuration): the value is made by the TOKEN key, the issuer
+        is the primary key packet and its key material is the token key's; a detached signature comes out only when
+        go-crypto selects no subkey (otherwise: "signing key doesn't have a private key") *)
+Theorem pgp_public_certificate_signed_by_token_key : forall key e md m l sg,
+  public_only e = true -> curve_hyp_pgp key e ->
+  pgp_request key e md m = Ok l -> In sg l ->
+  s_key (ps_val sg) = key /\ ps_keyid sg = kp_id (pe_primary e) /\ ps_fpr sg = kp_id (pe_primary e)
+  /\ pub_eqb (kp_pub (pe_primary e)) (k_pub key) = true.
+Proof. exact C07.PgpProofs.pgp_public_cert. Qed.
+Theorem pgp_detached_only_without_selected_subkey : forall key e m sg,
+  public_only e = true -> detach_sign 0 (loaded key e) m = Ok sg -> pick_sub key_flag_sign 0 0 None (pe_subs e) = None.
+Proof. exact C07.PgpProofs.pgp_detached_only_without_selected_subkey. Qed.
+(* 10f. mismatched configurations are errors: a primary key that is not the token key (whatever the subkeys are - a bound,
+        cross-signed signing subkey equal to the token key included), and in particular a certificate none of whose key
+        packets is the token key *)
+Theorem pgp_other_primary_refused : forall key e md m,
+  curve_hyp_pgp key e -> pub_eqb (kp_pub (pe_primary e)) (k_pub key) = false -> pgp_request key e md m = Err E_MISMATCH.
+Proof. exact C07.PgpProofs.pgp_request_mismatch. Qed.
+Theorem pgp_unrelated_certificate_refused : forall key e md m,
+  curve_hyp_pgp key e -> spec_pgp_must_fail key e = true -> pgp_request key e md m = Err E_MISMATCH.
+Proof. exact C07.PgpProofs.pgp_request_unrelated. Qed.
+(* 10g. the guard does not refuse valid configurations: primary key = token key signs through every entity.PrivateKey site *)
+Theorem pgp_matching_primary_signs : forall key e m,
+  kp_pub (pe_primary e) = k_pub key -> supported (k_pub key) = true ->
+  pgp_request key e (mkMode 0 true false false false) m = Ok [mkPs (kp_id (pe_primary e)) (kp_id (pe_primary e)) (mkSig key m)]
+  /\ pgp_request key e (mkMode 1 false false false false) m
+     = Ok [mkPs (kp_id (pe_primary e)) (kp_id (pe_primary e)) (mkSig key m); mkPs (kp_id (pe_primary e)) (kp_id (pe_primary e)) (mkSig key m)]
+  /\ pgp_request key e (mkMode 2 false false false false) m = Ok [mkPs (kp_id (pe_primary e)) (kp_id (pe_primary e)) (mkSig key m)].
+Proof. exact C07.PgpProofs.pgp_matching_clearsign. Qed.
+(* 10h. the stronger reading "the value is made by the token key" is FALSE of the code as written when the configured file is
+        a transferable SECRET key with an unencrypted signing subkey: go-crypto signs with the secret from the file (the
+        signature stays consistent: 10d) *)
+Theorem pgp_token_key_statement_refuted : exists key e md m sg,
+  ent_file_wf e = true /\ pgp_request key e md m = Ok [sg] /\ spec_pgp_sig_ok (cert_packets e) m sg = true
+  /\ spec_pgp_by_token_key key sg = false.
+Proof. exact C07.PgpProofs.token_key_bypassed_by_secret_subkey. Qed.
+
 (* non-vacuity *)
 Example rsa_chain_signs :
   let key := mkPriv 1 (PRsa 77 65537) in
@@ -299,3 +387,45 @@ Proof. repeat split. Qed.
 Example spec_rejects_mismatch :
   spec_output_ok 5 (OX509 (mkEm ex_a [ex_a] (c_pub ex_a) (mkSig exB 5))) = false.
 Proof. reflexivity. Qed.
+
+(* OpenPGP: token key K = RSA 77; P = RSA 91; S = RSA 55 *)
+Definition pgK := mkPriv 1 (PRsa 77 65537).
+Definition pg_uid : ident := mkId 0 true true 100 true true true false false false.
+Definition pg_uid2 : ident := mkId 0 true false 150 true true false false false false.
+Definition pg_signsub (id n t : Z) : subk := mkSub (mkKp id (PRsa n 65537)) true false true true false false false t None.
+Definition pg_encsub (id n t : Z) : subk := mkSub (mkKp id (PRsa n 65537)) true false false true false false false t None.
+Definition pg_all_modes : list pgpmode :=
+  [mkMode 0 false false false false; mkMode 0 false true false false; mkMode 0 false false true false; mkMode 0 false true true false;
+   mkMode 0 true false false false; mkMode 0 false false false true; mkMode 1 false false false false; mkMode 2 false false false false].
+(* primary = K, an encryption subkey, two user ids: every mode signs, names the primary packet 10, meets the specification *)
+Definition pg_plain : pent := mkPent 500 (mkKp 10 (PRsa 77 65537)) true false [pg_uid2; pg_uid] [pg_encsub 12 33 120] None.
+Example pgp_plain_certificate_signs :
+  forallb (fun md => match pgp_request pgK pg_plain md 5 with
+                     | Ok l => forallb (fun s => (ps_keyid s =? 10) && (ps_fpr s =? 10) && spec_pgp_sig_ok (cert_packets pg_plain) 5 s && spec_pgp_by_token_key pgK s) l
+                               && negb (zlen l =? 0)
+                     | _ => false end) pg_all_modes = true.
+Proof. vm_compute. reflexivity. Qed.
+(* primary = P, the token key K is a bound signing subkey (newest), plus an older foreign signing subkey: refused in every mode *)
+Definition pg_subcert : pent := mkPent 501 (mkKp 20 (PRsa 91 65537)) true false [pg_uid] [pg_signsub 22 55 110; pg_signsub 21 77 130] None.
+Example pgp_signing_subkey_certificate_refused :
+  map (fun md => pgp_request pgK pg_subcert md 5) pg_all_modes = map (fun _ => Err E_MISMATCH) pg_all_modes
+  /\ spec_pgp_must_fail pgK pg_subcert = false.
+Proof. vm_compute. auto. Qed.
+(* primary = K with a foreign signing subkey S: the openpgp-selected modes refuse (no private key for S), the entity.PrivateKey
+   modes sign under the primary packet *)
+Definition pg_foreign : pent := mkPent 502 (mkKp 10 (PRsa 77 65537)) true false [pg_uid] [pg_signsub 31 55 130] None.
+Example pgp_foreign_signing_subkey :
+  map (fun md => match pgp_request pgK pg_foreign md 5 with Ok l => map ps_keyid l | Err x => [- x] | Panic x => [-100 - x] end) pg_all_modes
+  = [[- E_NOPRIV]; [- E_NOPRIV]; [- E_NOPRIV]; [- E_NOPRIV]; [10]; [10]; [10; 10]; [10]].
+Proof. vm_compute. reflexivity. Qed.
+(* the specification is not trivially true: a signature that names the primary packet 20 (key P) over a value made by K, the
+   certificate's signing subkey, is rejected - and so is one whose key id and fingerprint name different packets *)
+Example pgp_spec_rejects_issuer_of_other_key :
+  spec_pgp_sig_ok (cert_packets pg_subcert) 5 (mkPs 20 20 (mkSig pgK 5)) = false
+  /\ spec_pgp_sig_ok (cert_packets pg_subcert) 5 (mkPs 21 20 (mkSig pgK 5)) = false
+  /\ spec_pgp_sig_ok (cert_packets pg_subcert) 5 (mkPs 21 21 (mkSig pgK 5)) = true.
+Proof. vm_compute. auto. Qed.
+(* hypotheses of 10d/10e are satisfiable *)
+Example pgp_hypotheses_satisfiable :
+  ent_file_wf pg_plain = true /\ public_only pg_plain = true /\ curve_hyp_pgp pgK pg_plain /\ pe_idents pg_plain <> [] /\ ent_file_wf wit_ent = true.
+Proof. repeat split; try reflexivity. discriminate. Qed.
